@@ -46,18 +46,26 @@ class Fork:
     def __next__(self):
         if self.next is None:
             if self.head.value is None:
-                with self.instream_lock:
-                    if self.head.value is None:
-                        # Get the very first data element out of `instream`
-                        # across all forks.
-                        # If this raises `StopIteration`, meaning `instream`
-                        # is empty, the exception will be propagated, halting
-                        # this fork. All the other forks will also get to this
-                        # point and exit the same way.
-                        x = next(self.instream)
-                        box = TeeX(x)
-                        self.buffer.put(box)
-                        self.head.value = box
+                while self.head.value is None:
+                    # Do not block on the lock indefinitely: a peer that got ahead may be
+                    # holding it while waiting for room in the buffer, and only this
+                    # fork can make room (once it sees that `head` has been set).
+                    if not self.instream_lock.acquire(timeout=0.1):
+                        continue
+                    try:
+                        if self.head.value is None:
+                            # Get the very first data element out of `instream`
+                            # across all forks.
+                            # If this raises `StopIteration`, meaning `instream`
+                            # is empty, the exception will be propagated, halting
+                            # this fork. All the other forks will also get to this
+                            # point and exit the same way.
+                            x = next(self.instream)
+                            box = TeeX(x)
+                            self.buffer.put(box)
+                            self.head.value = box
+                    finally:
+                        self.instream_lock.release()
                 self.next = self.head.value
                 return self.__next__()
             elif self._state == 0:
@@ -78,20 +86,23 @@ class Fork:
                 # the final data element in the buffer.
                 locked = self.instream_lock.acquire(timeout=0.1)
                 if locked:
-                    if self.next.next is None:
-                        try:
-                            x = next(self.instream)
-                        except StopIteration:
-                            # `instream` is exhausted.
-                            # `self.next.next` remains `None`.
-                            # The next call to `__next__` will land
-                            # in the first branch and raise `StopIteration`.
-                            pass
-                        else:
-                            box = TeeX(x)
-                            self.next.next = box  # IMPORTANT: this line goes before the next to avoid race.
-                            self.buffer.put(box)
-                    self.instream_lock.release()
+                    try:
+                        if self.next.next is None:
+                            try:
+                                x = next(self.instream)
+                            except StopIteration:
+                                # `instream` is exhausted.
+                                # `self.next.next` remains `None`.
+                                # The next call to `__next__` will land
+                                # in the first branch and raise `StopIteration`.
+                                pass
+                            else:
+                                box = TeeX(x)
+                                self.next.next = box  # IMPORTANT: this line goes before the next to avoid race.
+                                self.buffer.put(box)
+                    finally:
+                        # Release the lock also if `instream` raises.
+                        self.instream_lock.release()
                     break
 
             # Check whether the buffer head should be popped:
